@@ -54,6 +54,10 @@ func VerifC03() {
 	vSetIR(3)
 	user, node = vAcct("user"), vAcct("node")
 	sA, sC, sIR, sM, sU, sK = vBool("alphabetSigns"), vBool("committeeMajoritySigns"), vBool("innerRingMajoritySigns"), vBool("oneCommitteeMemberSigns"), vBool("userSigns"), vBool("nodeSigns")
+	if vEq(vAlphabetAcct(), vCommitteeAcct()) { // committees of 1 or 4: the two multi-signature accounts coincide
+		sA = sA || sC
+		sC = sA
+	}
 	other := vAcct("other")
 	var done bool
 	switch group {
@@ -256,8 +260,10 @@ func VerifC03() {
 }
 
 // storedAlphabetSigns: the NeoFS contract stores one Alphabet key (committee member 0); its 1-of-1
-// multi-signature account is not among the offered signers, so only the candidate can remove itself here.
-func storedAlphabetSigns() bool { return false }
+// multi-signature account is among the offered signers only when the committee has one member.
+func storedAlphabetSigns() bool {
+	return vParam(2) == 1 && sA // a committee of one: member 0's 1-of-1 account IS the Alphabet account
+}
 
 // C03 verify: Proxy and Alphabet accept a transaction only with an Alphabet (2n/3+1) or committee-majority
 // multi-signature, Processing only with the multi-signature of the Alphabet keys stored in NeoFS.
@@ -266,6 +272,10 @@ func VerifC03Verify() {
 	vSetIR(3)
 	user, node = vAcct("user"), vAcct("node")
 	sA, sC, sIR, sM, sU, sK = vBool("alphabetSigns"), vBool("committeeMajoritySigns"), vBool("innerRingMajoritySigns"), vBool("oneCommitteeMemberSigns"), vBool("userSigns"), vBool("nodeSigns")
+	if vEq(vAlphabetAcct(), vCommitteeAcct()) {
+		sA = sA || sC
+		sC = sA
+	}
 	vDeploy("netmap", false, nil, nil, nil, []any{})
 	vDeploy("proxy")
 	vDeploy("alphabet", false, vContractHash("netmap"), vContractHash("proxy"), "Az", 0, vParam(0))
